@@ -201,8 +201,10 @@ def session_tie_histories(ctx, viol, dist):
     # "any point at which the user quits": also between two guesses of a Markov level - four-letter OMEN models (lists of three and
     # four characters per context), quit before guess j for a dozen j per level, resumed; both sessions together = the whole stream
     from props import C15 as _c15
-    for i in range(ctx.scale(2, 8)):
-        spec = C12.small_ruleset(rng, markov_pos=rng.choice([0, 1, 2]), wide=True)
+    for i in range(ctx.scale(4, 10)):
+        # wide: long lists per (context, level); rich: lengths at length levels 0..2 and Markov targets up to 4, so the remainder of an
+        # interrupted level lies at further lengths / initial-prefix levels than the ones the level started with
+        spec = C12.small_ruleset(rng, markov_pos=rng.choice([0, 1, 2]), wide=(i % 2 == 0), rich=(i % 2 == 1))
         d = common.write_ruleset(os.path.join(root, f"c08omen{i % 2}"), spec)
         pcfg = common.load_grammar(d)
         units = ss.units_of(pcfg)
